@@ -97,7 +97,12 @@ def _format_column(col, max_preview: int | None = None) -> List[str]:
 		elif v is None:
 			out.append('None')
 		elif col._dtype and col._dtype.kind is float:
-			out.append(f"{v:.1f}" if math.isfinite(v) and v == int(v) else f"{v:g}")
+			if isinstance(v, int):
+				# a float column keeps its int elements as ints: show their own digits
+				# (float formatting overflows for big ints and rounds above 2**53)
+				out.append(f"{v:d}.0")
+			else:
+				out.append(f"{v:.1f}" if math.isfinite(v) and v == int(v) else f"{v:g}")
 		elif col._dtype and col._dtype.kind is int:
 			out.append(str(v))
 		elif col._dtype and col._dtype.kind is date:
